@@ -18,18 +18,19 @@ import (
 var pipeCaps = []int{1 << 20, 4096, 64, 16, 7, 3, 2, 1}
 
 type c13Trace struct {
-	Frame     *gen.FrameSpec `json:"frame"`
-	Scramble  gen.Scramble   `json:"scramble"`
-	Header    bool           `json:"header"`
-	Columns   []string       `json:"columns,omitempty"`
-	EmptyNull bool           `json:"empty_null"`
-	PipeCap   int            `json:"pipe_cap"`
-	Policy    gen.PolicyDesc `json:"policy"`
-	Written   string         `json:"written,omitempty"`
-	Chunks    []int          `json:"chunks,omitempty"`
-	Expected  *obs.Frame     `json:"expected,omitempty"`
-	Observed  *obs.Frame     `json:"observed,omitempty"`
-	WriteErr  string         `json:"write_err,omitempty"`
+	Frame          *gen.FrameSpec `json:"frame"`
+	Scramble       gen.Scramble   `json:"scramble"`
+	Header         bool           `json:"header"`
+	Columns        []string       `json:"columns,omitempty"`
+	EmptyNull      bool           `json:"empty_null"`
+	DeclareDerived bool           `json:"declare_derived_enum_values"`
+	PipeCap        int            `json:"pipe_cap"`
+	Policy         gen.PolicyDesc `json:"policy"`
+	Written        string         `json:"written,omitempty"`
+	Chunks         []int          `json:"chunks,omitempty"`
+	Expected       *obs.Frame     `json:"expected,omitempty"`
+	Observed       *obs.Frame     `json:"observed,omitempty"`
+	WriteErr       string         `json:"write_err,omitempty"`
 }
 
 // tee records every byte the writer produced.
@@ -50,10 +51,15 @@ func runC13(t *rapid.T) {
 		b.MaxCols, b.MaxRows = 6, 64
 	}
 	var fs *gen.FrameSpec
+	stress := false
 	big := gen.Rare(t, "big", 1500)
 	if big {
 		fs = gen.DrawBigFrame(t, 300, 2500) // output far beyond the writer's 4 KiB buffer
 		core.Probe("big-frame")
+	} else if gen.Rare(t, "stress", 12) {
+		stress = true
+		fs = gen.DrawStressFrame(t)
+		core.Probe("float-stress-frame")
 	} else {
 		fs = gen.DrawFrame(t, b)
 	}
@@ -62,6 +68,9 @@ func runC13(t *rapid.T) {
 	tr.Header = rapid.IntRange(0, 3).Draw(t, "header") != 0
 	tr.EmptyNull = rapid.Bool().Draw(t, "emptynull")
 	tr.PipeCap = pipeCaps[rapid.IntRange(0, len(pipeCaps)-1).Draw(t, "pipecap")]
+	if stress && tr.PipeCap < 512 {
+		tr.PipeCap = 512
+	}
 	if big && tr.PipeCap < 4096 {
 		tr.PipeCap = 4096
 	}
@@ -88,13 +97,35 @@ func runC13(t *rapid.T) {
 		order = rapid.Permutation(names).Draw(t, "columns")
 		tr.Columns = order
 	}
-	// declared enum values of a (possibly copied) column of the derived frame
+	// declared enum values of a (possibly copied) column of the derived frame;
+	// for a column whose value set was derived from the data, now and then the
+	// values the frame holds (in order of first appearance) are declared
+	declareDerived := rapid.Bool().Draw(t, "declarederived")
+	tr.DeclareDerived = declareDerived
 	declared := func(name string) []string {
+		orig := name
 		for strings.HasSuffix(name, "_cp") && fs.Col(name) == nil {
 			name = strings.TrimSuffix(name, "_cp")
 		}
-		if c := fs.Col(name); c != nil {
+		if c := fs.Col(name); c != nil && c.EnumVals != nil {
 			return c.EnumVals
+		}
+		if i := indexOf(src.Names, orig); declareDerived && i >= 0 && src.Types[i] == "enum" {
+			var vals []string
+			seen := map[string]bool{}
+			for _, cell := range src.Cols[i] {
+				if cell != "null" && !seen[cell] {
+					seen[cell] = true
+					v, err := strconv.Unquote(cell[2:])
+					if err != nil {
+						t.Fatalf("harness: cannot decode observed cell %s", cell)
+					}
+					vals = append(vals, v)
+				}
+			}
+			if len(vals) > 0 {
+				return vals
+			}
 		}
 		return nil
 	}
